@@ -43,6 +43,7 @@ def run(ck):
     captured_state(ck)
     formatters_render_captured_state(ck)
     no_pointer_identity(ck)
+    only_stop_paths_stop(ck)
     for inst in sorted([F.flat(f) for f in F.fn_all(OT + "::process") if f.d.get("inst")], key=lambda f: f.name):
         handoff(ck, inst)
     ck.require(len([f for f in F.fn_all(OT + "::process") if f.d.get("inst")]) >= 2, "OwnThreadHandler instantiations not found")
@@ -422,3 +423,34 @@ def handoff(ck, proc):
         e = skip_copies(bi[0]["e"]) if bi else None
         noparent = e is None or (e.get("k") == "construct" and (not e.get("args") or all(x.get("k") == "defaultarg" or skip_copies(x).get("k") == "null_lit" for x in e["args"])))
         ck.ob("C03-O6", sitestr(wc[0]), noparent, "%s: the worker has no parent (a parented object cannot be moved to another thread)" % tag if noparent else "%s: the worker is constructed with a parent" % tag, key="Worker|parent")
+
+
+def only_stop_paths_stop(ck):
+    """C03-O11: a running asynchronous handler is switched back to synchronous processing only by the three stop paths the property knows (the
+    destructor, the application-quit hook, the user's own resetOwnThread() call). Library code that stops and restarts the logger thread for a
+    purpose of its own (a flush, a reconfiguration) opens a window in which log calls of other threads run the whole pipeline - sinks included -
+    in the calling thread."""
+    F = ck.facts
+    ck.rule("C03-O11", "inside the library resetOwnThread() is called only from the destructor of OwnThreadHandler and from the aboutToQuit hook installed by moveToOwnThread()")
+    calls = F.callers_of(lambda n: n.get("k") == "call" and strip_tmpl(n.get("callee") or "").endswith("OwnThreadHandler::resetOwnThread"))
+    n_ok = 0
+    seen = set()
+    for f, n in calls:
+        if not in_lib(f.file):
+            continue
+        owner = F.fns.get(f.lambda_of) if f.lambda_of else None
+        host = owner or f
+        short = strip_tmpl(host.name).replace("QtLogger::", "")
+        ok = host.d.get("kind") == "dtor" and strip_tmpl(host.cls or "") == "QtLogger::OwnThreadHandler" or \
+            (owner is not None and strip_tmpl(owner.name).endswith("OwnThreadHandler::moveToOwnThread"))
+        key = (short, ok)
+        if ok:
+            n_ok += 1
+            continue
+        if key in seen:
+            continue
+        seen.add(key)
+        ck.ob("C03-O11", sitestr(f, n), False, "%s stops the logger thread for a purpose of its own: until it is started again every log call of another thread finds the handler synchronous and runs the "
+              "pipeline, sinks included, inside the logging call" % short, key="stop-path|%s" % short)
+    ck.require(n_ok >= 2, "the two sanctioned stop paths (destructor, aboutToQuit hook) were not both found (%d)" % n_ok)
+    ck.ob("C03-O11", "src/qtlogger/ownthreadhandler.h (OwnThreadHandler)", True, "%d call sites of resetOwnThread() in the library, all in the destructor or the aboutToQuit hook" % n_ok, key="stop-path|sanctioned")
